@@ -74,6 +74,20 @@ claim("C05", "proof", "Lean 4 telescoping theorems (induction on the number of c
       COMMON_NOTE + "3-d Cartesian and the simulation-level statement for the concrete solver loops are covered by the "
       "abstract theorem plus monitors (the per-solver instantiation is in C06).", "DESIGN.md section 6, C05")
 
+claim("C12", "proof", "Lean 4 theorems (telescoping volume sums, toIcoMod normalisation, wrapped differences) + model/code correspondence",
+      "Discretisation, cell volumes (pi as parameter), integration over any axis subset, projection, cell/grid/Cartesian "
+      "transforms, containment, periodic normalisation and reflection, and the wrapped difference vector with the list of "
+      "periodic flags zipped against Cartesian components exactly as _difference_vector does are modelled in Lean "
+      "(Model/Grid, Volume, GridCoords); 103 theorems prove centres/dx, exact cell volumes and their sum for any N and inner "
+      "radius, integrate(1) = measure for every axis subset, projection preserves the integral, transforms are mutually "
+      "inverse, generated points are contained, normalisation lands in the domain / is idempotent / moves by whole periods, "
+      "reflections likewise, |wrap| <= L/2, invariance under period shifts, distance symmetry incl. the L/2 tie, and that every "
+      "periodic flag is paired with the Cartesian component of its own axis (all classes incl. cylindrical). The model at Rat is "
+      "compared with the real grids on ~40k cases per quick run (dyadic stream exactly, decimal stream at 1e-12) and monitors "
+      "for symmetry, idempotence, half-period, volume sums, mirror points run on the real code.",
+      COMMON_NOTE + "hypot/arctan2/arccos/cos/sin and d-th roots are external and validated numerically only.",
+      "DESIGN.md section 6, C12; notes/C12.md")
+
 # properties not (yet) decided by the machinery
 NOT_APPLICABLE = {}
 
